@@ -25,8 +25,13 @@ def run(ctx):
     import rules.C03 as C03
     ctx.step(C03.r03_1, ctx)
     ctx.step(C03.r03_3, ctx)        # the cut-off table: "in-range keys" of a bounded search
-    ctx.step(streams.seek_rules, ctx, R41, R42, None, None, want_c03=False, want_c04=True)
-    ctx.step(streams.next_rules, ctx, R41, R42, R43, R44, R45, None, None, want_c03=False, want_c04=True)
+    # a bounded search walks the same seek / DFS code as a plain range: its endgames, lock step and empty-key gating (R03.4-R03.6) are
+    # necessary for "exactly the accepted keys WITHIN THE BOUNDS" and are decided here on the same paths
+    R34 = ctx.rule('R03.4', 'seek endgames: inclusive steps back one transition and pops one key byte; exclusive pushes the child frame at transition 0 with the whole bound\'s output; divergence resumes at the first larger byte', floor=5)
+    R35 = ctx.rule('R03.5', 'DFS step: stack and key buffer move in lock step on every path; frame contents, emitted key/value and cut-off placement', floor=8)
+    R36 = ctx.rule('R03.6', 'empty key: armed iff the lower bound is empty and inclusive; emitted only after the cut-off test on the empty string', floor=4)
+    ctx.step(streams.seek_rules, ctx, R41, R42, R34, R36, want_c03=True, want_c04=True, R35s=R35)
+    ctx.step(streams.next_rules, ctx, R41, R42, R43, R44, R45, R35, R36, want_c03=True, want_c04=True)
     # "any automaton that obeys the contract": one that does not override the optional hints gets the provided ones, which must be the
     # trivially sound ones
     import rules.C18 as C18
